@@ -211,8 +211,18 @@ def function_value_case(draw):
             "how": draw(st.sampled_from(["definition", "definition", "declared_then_assigned", "reassigned_typed", "reassigned_untyped"]))}
 
 
+@st.composite
+def interlude_case(draw):
+    """stage 1 defines a custom unit and a node and keeps the environment; an unrelated text defines the unit of the same
+    name differently and uses both directions of the conversion; stage 2 (on top of the kept environment) assigns the
+    node in the other unit: the kept environment carries its own definition"""
+    return {"inter": True, "k1": draw(st.sampled_from([2.0, 0.5, 4.0, 10.0])), "k2": draw(st.sampled_from([4.0, 0.25, 8.0, 3.0])),
+            "x": draw(st.sampled_from([12.0, -6.0, 0.0, 3.0, 250.0])), "dir": draw(st.sampled_from(["into_custom", "from_custom"])),
+            "base": draw(st.sampled_from(["m", "cm"])), "repeat": draw(st.integers(1, 2))}
+
+
 def strategies(tier):
-    return {"target": (target_case(), 3000, 60000), "lookalike": (lookalike_case(), 150, 2500),
+    return {"interlude": (interlude_case(), 100, 1500), "target": (target_case(), 3000, 60000), "lookalike": (lookalike_case(), 150, 2500),
             "int_array": (int_array_case(), 150, 2500), "function_value": (function_value_case(), 120, 2000)}
 
 
@@ -457,7 +467,44 @@ def _check_function_value(case, v):
         return v.fail("value", f"x0 = {got!r}, the function returns {val!r}:\n{text}")
 
 
+def _check_interlude(case, v):
+    from scinumtools.dip import DIP, Format
+    k1, k2, x, b = case["k1"], case["k2"], case["x"], case["base"]
+    fb = {"m": 1.0, "cm": 0.01}[b]
+    if case["dir"] == "into_custom":
+        s1 = f"$unit ilen = {k1} m\nw float = 1 [ilen]"
+        s2 = f"w = {x} {b}"
+        want = (x * fb / k1, "[ilen]")
+    else:
+        s1 = f"$unit ilen = {k1} m\nw float = 1 {b}"
+        s2 = f"w = {x} [ilen]"
+        want = (x * k1 / fb, b)
+    other = f"$unit ilen = {k2} m\nd float = 1 [ilen]\nd = {x} {b}\ne float = 1 {b}\ne = {x} [ilen]"
+    text = f"{s1}\n# ---- an unrelated parser in between ----\n{other}\n# ---- on top of the first environment ----\n{s2}"
+    v.nt(True)
+    v.label("unrelated_parse_between_the_stages", "interlude_" + case["dir"])
+    v.info = {"text": text}
+    try:
+        with DIP(name=f"c14_{next(_uid)}") as p:
+            p.add_string(s1)
+            env1 = p.parse()
+        for _ in range(case["repeat"]):
+            with DIP(name=f"c14_{next(_uid)}") as p:
+                p.add_string(other)
+                p.parse().data(Format.TUPLE)
+        with DIP(env1, name=f"c14_{next(_uid)}") as p:
+            p.add_string(s2)
+            got = p.parse().data(Format.TUPLE)["w"]
+    except Exception as e:
+        return v.fail("parse-raised", f"raised {e!r} for:\n{text}")
+    if got[1] != want[1] or abs(got[0] - want[0]) > 1e-9 * max(1.0, abs(want[0])):
+        return v.fail("value", f"w = {tuple(got)!r}, expected {want!r} ([ilen] = {k1} m in the environment the assignment is "
+                               f"parsed on; the unrelated text defined it as {k2} m):\n{text}")
+
+
 def _check(case, v):
+    if case.get("inter"):
+        return _check_interlude(case, v)
     if case.get("iarr"):
         return _check_int_array(case, v)
     if case.get("fnval"):
